@@ -170,6 +170,7 @@ package contractcourt
 //@   site call advanceState as trigger-contract-closed: assert
 //@        (old(c.cfg.IsPendingClose) && st0 == StateContractClosed) ==> arg(2) == closeTrigger(old(c.cfg.CloseType))
 //@   site call advanceState as trigger-otherwise: assert !old(c.cfg.IsPendingClose) ==> arg(2) == chainTrigger
+//@   ensures called(advanceState)
 //@   site call relaunchResolvers: assert st0 == StateWaitingFullResolution && retn(advanceState, 0) == StateWaitingFullResolution &&
 //@        arg(1) == commitSet
 //@
@@ -188,6 +189,9 @@ package contractcourt
 //@   requires closeInfo != nil
 //@   site call InsertConfirmedCommitSet: assert ret(LogContractResolutions) == nil && arg(1) == addr(closeInfo.CommitSet)
 //@   site call MarkChannelClosed: assert ret(LogContractResolutions) == nil && ret(InsertConfirmedCommitSet) == nil
+//@   // success means the work was done: resolutions and commit set logged, the channel marked closed, the state machine advanced
+//@   ensures result == nil ==> called(LogContractResolutions) && ret(LogContractResolutions) == nil && called(InsertConfirmedCommitSet) &&
+//@           called(MarkChannelClosed) && ret(MarkChannelClosed) == nil && called(advanceState)
 //@   site call advanceState: assert ret(MarkChannelClosed) == nil && arg(2) == remoteCloseTrigger && arg(3) == addr(closeInfo.CommitSet) &&
 //@        arg(1) == wrap(closeInfo.SpendingHeight, 32)
 //@
@@ -197,6 +201,9 @@ package contractcourt
 //@   requires closeInfo != nil
 //@   site call InsertConfirmedCommitSet: assert ret(LogContractResolutions) == nil && arg(1) == addr(closeInfo.CommitSet)
 //@   site call MarkChannelClosed: assert ret(LogContractResolutions) == nil && ret(InsertConfirmedCommitSet) == nil
+//@   // success means the work was done: resolutions and commit set logged, the channel marked closed, the state machine advanced
+//@   ensures result == nil ==> called(LogContractResolutions) && ret(LogContractResolutions) == nil && called(InsertConfirmedCommitSet) &&
+//@           called(MarkChannelClosed) && ret(MarkChannelClosed) == nil && called(advanceState)
 //@   site call advanceState: assert ret(MarkChannelClosed) == nil && arg(2) == localCloseTrigger && arg(3) == addr(closeInfo.CommitSet) &&
 //@        arg(1) == wrap(closeInfo.SpendingHeight, 32)
 //@
@@ -206,6 +213,9 @@ package contractcourt
 //@   requires breachInfo != nil
 //@   site call InsertConfirmedCommitSet: assert ret(LogContractResolutions) == nil && arg(1) == addr(breachInfo.CommitSet)
 //@   site call MarkChannelClosed: assert ret(LogContractResolutions) == nil && ret(InsertConfirmedCommitSet) == nil
+//@   // success means the work was done: resolutions and commit set logged, the channel marked closed, the state machine advanced
+//@   ensures result == nil ==> called(LogContractResolutions) && ret(LogContractResolutions) == nil && called(InsertConfirmedCommitSet) &&
+//@           called(MarkChannelClosed) && ret(MarkChannelClosed) == nil && called(advanceState)
 //@   site call advanceState: assert ret(MarkChannelClosed) == nil && arg(2) == breachCloseTrigger && arg(3) == addr(breachInfo.CommitSet)
 //@
 //@ func (c *ChannelArbitrator) resolveContract
@@ -259,6 +269,7 @@ package contractcourt
 //@        ((commitSet != nil && commitSet.ConfCommitKey.isSome) ==>
 //@          confirmedHTLCs == commitSet.HtlcSets[commitSet.ConfCommitKey.some])
 //@   site call FetchUnresolvedContracts: assert true
+//@   ensures result == nil ==> called(FetchUnresolvedContracts) && retn(FetchUnresolvedContracts, 1) == nil
 //@   site call Supplement: assert retn(FetchContractResolutions, 1) == nil && retn(FetchUnresolvedContracts, 1) == nil
 //@
 //@ func (b *boltArbitratorLog) writeResolver
@@ -507,6 +518,7 @@ package contractcourt
 //@   site call WipeHistory: assert called(MarkChanFullyClosed) && ret(MarkChanFullyClosed) == nil
 //@   site call MarkChanFullyClosed: assert arg(1) == addr(chanPoint)
 //@   site call Stop nth 0: assert called(MarkChanFullyClosed) && ret(MarkChanFullyClosed) == nil
+//@   ensures result == nil ==> called(MarkChanFullyClosed) && ret(MarkChanFullyClosed) == nil
 //@
 //@ // ---- a spend of a revoked HTLC output that is not our own revocation spend moves the output to the second level, for all four HTLC
 //@ // ---- revoke witness types (segwit-v0 and taproot, offered and accepted): such an output is marked terminal only if the spend WAS
